@@ -24,7 +24,9 @@ RULE = ('case = generated pair of configurations (every suite, PSK / RSA per dir
         '(re-derived by the reference observer and also harvested from the NEWSA requests), every DH shared secret. '
         'Positive control per run: the DEBUG records of successful runs must contain such material, otherwise the run is a '
         'harness error. Non-trivial = the history contains a failure path (authentication failure, error reply, kernel refusal, '
-        'hostile datagram, internal error) or a rekey; distinct by (fault kind, suite, auth methods, op kinds).')
+        'hostile datagram, internal error) or a rekey; distinct by (fault kind, suite, auth methods, op kinds). One case in '
+        'eight is a start-up failure: a configuration that the loader refuses (ill-typed PSK of several shapes, other invalid '
+        'fields next to valid credentials); the text pyikev2.py logs at ERROR for it must not contain the PSKs.')
 ASSUMPTIONS = [
     'three of four cases run with the root logger at INFO (the daemon\'s default), one of four at DEBUG as positive control',
     'secrets of at least 8 octets are searched; shorter strings would match by chance',
@@ -166,7 +168,75 @@ def run_case(case):
     return fails, info, s
 
 
+def config_case(case):
+    """start-up failure path: a configuration the daemon refuses.  pyikev2.py logs `Configuration error: <exception text>` at
+    ERROR and exits; that text must not carry the credentials of the file"""
+    import copy
+    cfg = case['cfg']
+    ca, _ = gen.build(cfg)
+    d = copy.deepcopy(ca)
+    secret = cfg['psk_a']
+    kind = case['bad']
+    conn = d['conn']
+    if kind == 'psk_bytes':
+        conn['my_auth']['psk'] = secret.encode()
+    elif kind == 'psk_list':
+        conn['my_auth']['psk'] = [secret]
+    elif kind == 'psk_dict':
+        conn['my_auth']['psk'] = {'value': secret}
+    elif kind == 'psk_int':
+        secret = str(int.from_bytes(secret.encode()[:12], 'big'))
+        conn['my_auth']['psk'] = int(secret)
+    elif kind == 'peer_psk_bytes':
+        conn['peer_auth']['psk'] = cfg['psk_b'].encode()
+        secret = cfg['psk_b']
+    elif kind == 'other_field':
+        conn[case.get('field', 'lifetime')] = 'soon'
+    elif kind == 'protect_field':
+        conn['protect'][0]['mode'] = 'sideways'
+    elif kind == 'auth_not_mapping':
+        conn['my_auth'] = [secret]
+    elif kind == 'missing_addr':
+        conn.pop('peer_addr')
+    root = logging.getLogger()
+    cap = Capture()
+    old_level = root.level
+    root.addHandler(cap)
+    root.setLevel(logging.INFO)
+    outcome = 'accepted'
+    try:
+        try:
+            A.Configuration([__import__('ipaddress').ip_address(cfg['addr_a'])], d)
+        except A.ConfigurationError as ex:
+            outcome = 'ConfigurationError'
+            logging.error(f'Configuration error: {ex}')          # what pyikev2.py does with it
+        except Exception as ex:                                   # C19's subject; whatever reaches the log is still judged here
+            outcome = type(ex).__name__
+            logging.error(f'Configuration error: {ex}')
+    finally:
+        root.removeHandler(cap)
+        root.setLevel(old_level)
+    fails = []
+    hi = '\n'.join(t for lv, t in cap.records if lv >= logging.INFO)
+    for name, sec in (('psk', secret), ('psk', cfg['psk_a']), ('psk', cfg['psk_b'])):
+        for f in forms(sec.encode()) | {sec}:
+            if len(f) >= 8 and f in hi:
+                if not fails:
+                    fails.append(Failure(f'secret-in-log:psk:ERROR:configuration', f'the start-up error record for a refused '
+                                                                                   f'configuration ({kind}) contains the PSK: "'
+                                         + hi.replace(f, '<SECRET>')[:160] + '"'))
+    return fails, {'outcome': outcome, 'records_hi': len(cap.records)}, None
+
+
 def body(case, stats):
+    if case.get('kind') == 'config':
+        fails, info, _ = config_case(case)
+        stats.case(common.jhash(['config', case['bad'], case.get('field'), info['outcome']]), nontrivial=info['outcome'] != 'accepted',
+                   klass=['config-error-path:' + case['bad'], 'config-outcome:' + info['outcome']],
+                   sample={'bad': case['bad'], 'outcome': info['outcome']})
+        for f in fails:
+            f.case = case
+        return fails
     fails, info, s = run_case(case)
     cfg = case['cfg']
     kl = ['auth-fault:' + str(case.get('auth_fault')), 'auth:' + cfg['auth_a'] + '/' + cfg['auth_b'],
@@ -189,6 +259,8 @@ def body(case, stats):
 
 
 def replay(case):
+    if case.get('kind') == 'config':
+        return config_case(case)[0]
     return run_case(case)[0]
 
 
@@ -202,6 +274,12 @@ def cases(draw):
     ka, kb = draw(st.integers(0, 10 ** 6)), draw(st.integers(0, 10 ** 6))
     cfg['psk_a'] = 'Ka+' + base64.b64encode(hashlib.sha256(b'a%d' % ka).digest()).decode()[:draw(st.integers(16, 40))]
     cfg['psk_b'] = 'Kb/' + base64.b64encode(hashlib.sha256(b'b%d' % kb).digest()).decode()[:draw(st.integers(16, 40))]
+    if draw(st.integers(0, 7)) == 0:
+        cfg['auth_a'] = cfg['auth_b'] = 'psk'
+        return {'kind': 'config', 'cfg': cfg, 'bad': draw(st.sampled_from(['psk_bytes', 'psk_list', 'psk_dict', 'psk_int', 'peer_psk_bytes',
+                                                                            'other_field', 'protect_field', 'auth_not_mapping',
+                                                                            'missing_addr'])),
+                'field': draw(st.sampled_from(['lifetime', 'dpd', 'encr', 'dh', 'my_addr']))}
     af = draw(st.sampled_from(['none', 'none', 'wrong_psk', 'wrong_id', 'expects_psk_gets_rsa', 'expects_rsa_gets_psk',
                                'responder_wrong_psk']))
     if af != 'none':
